@@ -45,6 +45,9 @@ CHECKS = {
     'C10': dict(engine='ProcessCore', technique='TLA+ ProcessCore awaitables extension (workchains.Waiting enter/exit/_awaitable_done), TLC exhaustive (C10_Barrier, C10_FailureStops) + replay on real WorkChains with futures and launched children',
                 text='<=3 awaited items x registration way x outcome {ok, fails, killed} x every completion order and grouping into loop iterations x pause/play/kill placements; the step after the barrier records which futures are done and the ctx.',
                 ref='5 C10', note=CORE_NOTE),
+    'C15': dict(engine='Expose', technique='TLA+ Expose: operational Absorb/ExposePorts (mirror of ports.py/process_spec.py, allocation ids) vs declarative Selected/NsProps/Independent, TLC on every (tree, rules, namespace, options) instance; each instance and every single mutation executed on real ProcessSpec objects',
+                text='Source trees with <=4 (5 thorough) ports and string-prefix name pairs x every include/exclude antichain x target namespaces x namespace_options; destination tree, descriptions, exposed-port memory and aliasing compared with the TLA+ result; every single mutation of either side checked for independence.',
+                ref='5 C15', note='Trusted base: TLC, harness/expose_real.py. Namespace defaults that are mutable objects mutated in place, and non-atomic refusals, are outside the universe (stated in the evidence).'),
     'C20': dict(engine='Adapters', technique='TLA+ Adapters (futures, ready queue, synchronous kiwipy callbacks), TLC exhaustive (Faithful, ExactlyOnce, ActionOnce, Stable) + replay of every behaviour on the real adapters + validation of message_receive traces',
                 text='Chains of futures resolving to futures to depth 2 (4 thorough), every outcome at every level in every completion order, for create_task, plum_to_kiwi_future, unwrap_kiwi_future, their composition, convert_to_comm, _schedule_rpc replies and CancellableAction histories.',
                 ref='5 C20', note='Trusted base: TLC, harness/vloop.py, harness/adapters_real.py. Real cross-thread delivery is not explored.'),
@@ -67,6 +70,8 @@ m = {
          'kind_free_text': 'explicit TLA+ specification of the process control protocol + TLC + graph replay (harness/core_*.py)'},
         {'name': 'Outline', 'path': 'spec/Outline.tla', 'serves_properties': ['C09', 'C08', 'C07'],
          'kind_free_text': 'explicit TLA+ specification of the WorkChain outline interpreter (stepper tree vs structured semantics, stepper persistence)'},
+        {'name': 'Expose', 'path': 'spec/Expose.tla', 'serves_properties': ['C15'],
+         'kind_free_text': 'explicit TLA+ specification of PortNamespace.absorb / ProcessSpec.expose_* (operational vs declarative)'},
         {'name': 'Adapters', 'path': 'spec/Adapters.tla', 'serves_properties': ['C20'],
          'kind_free_text': 'explicit TLA+ specification of the future adapters and CancellableAction'},
     ],
